@@ -3,7 +3,7 @@ From Coq Require Import ZArith List Bool Reals.
 From Flocq Require Import Core IEEE754.BinarySingleNaN.
 From KV Require Import Base.IEEE Base.Outcome C01.Model C01.ProofsOut C01.ProofsNan C01.ProofsSteps
      C01.ProofsRender C01.ProofsLoops C01.ProofsBridge C01.ProofsImports.
-From KV Require C02.Model C04.StaticSound C05.Model C08.Model C08.Props.
+From KV Require C02.Model C04.StaticSound C05.Model C05.ProofsSpeed C08.Model C08.Props.
 Import ListNotations.
 
 Theorem clamp_of_non_nan_is_finite_unit :
@@ -144,18 +144,41 @@ Theorem loops_carry_no_iteration_b64 :
   forall (x : f64) (fuel : nat), le64 one64 x = false -> sub1_loop fuel x = Ok (0, x).
 Proof. exact sub1_loop_none. Qed.
 
-(** the clock's tick loop (C05's model, binary64 instance) *)
+(** the clock's tick split (C05's model of [Clock::update] since the F7 repair, binary64 instance:
+    floor, saturating cast, one subtraction — no loop).  It is TOTAL: for EVERY timer value (finite
+    of any size, +inf, -inf, NaN, negative) it returns; the tick count never decreases and saturates
+    at u64::MAX; if [timer >= 1.0] the fraction left is a finite number in [0,1) (finite timer:
+    exactly [timer - floor timer] with [floor timer] ticks added; +inf: 0.0 and u64::MAX); otherwise
+    ticks and timer are untouched. *)
 Theorem loops_terminate_clock_ticks_b64 :
+  forall (tk : Z) (x : f64),
+    (0 <= tk <= u64_max)%Z ->
+    exists tk' r, C05.Model.tick_update (T := f64) tk x = (tk', r) /\ (tk <= tk' <= u64_max)%Z /\
+      if le64 one64 x then
+        is_finite r = true /\ (0 <= B2R r < 1)%R /\
+        (is_finite x = true ->
+           B2R r = (B2R x - IZR (Zfloor (B2R x)))%R /\ tk' = Z.min u64_max (tk + Zfloor (B2R x))) /\
+        (is_finite x = false -> tk' = u64_max /\ r = B754_zero false)
+      else tk' = tk /\ r = x.
+Proof. exact C05.ProofsSpeed.tick_update_total_b64_lemma. Qed.
+(** the loop it replaced (counter-model [tick_loop_old]): below 2^53 it cost exactly floor(x)
+    iterations and left the same split ... *)
+Theorem loops_clock_ticks_old_loop_b64 :
   forall (x : f64) (fuel : nat) (tk : Z),
     is_finite x = true -> (0 <= B2R x <= IZR (2 ^ 53))%R -> Z.to_nat (Zfloor (B2R x)) <= fuel ->
     (tk + Zfloor (B2R x) <= u64_max)%Z ->
-    exists r, C05.Model.tick_loop (T := f64) fuel tk x = Ok ((tk + Zfloor (B2R x))%Z, r) /\ is_finite r = true /\
+    exists r, C05.Model.tick_loop_old (T := f64) fuel tk x = Ok ((tk + Zfloor (B2R x))%Z, r) /\ is_finite r = true /\
               B2R r = (B2R x - IZR (Zfloor (B2R x)))%R /\ (0 <= B2R r < 1)%R.
 Proof. exact tick_loop_floor. Qed.
+(** ... F7, REGRESSION: from 2^55 on and for +inf the old loop never returned, whatever the fuel;
+    the repaired split returns (fraction 0: such a timer is an integer; ticks within u64) *)
 Theorem loops_clock_ticks_refuted_b64 :
   forall x : f64, carry_diverges x ->
-    forall (fuel : nat) (tk : Z), is_ok (C05.Model.tick_loop (T := f64) fuel tk x) = false.
-Proof. exact tick_loop_diverges_b64. Qed.
+    (forall (fuel : nat) (tk : Z), is_ok (C05.Model.tick_loop_old (T := f64) fuel tk x) = false) /\
+    (forall tk : Z, (0 <= tk <= u64_max)%Z ->
+       exists tk' r, C05.Model.tick_update (T := f64) tk x = (tk', r) /\ (tk <= tk' <= u64_max)%Z /\
+                     is_finite r = true /\ B2R r = 0%R).
+Proof. exact tick_update_on_divergence_class. Qed.
 
 (** the static sound's carry loop (C04's model, binary64 instance): it never returns once the
     fractional position is in the divergence class, and whenever it returns it went through the
